@@ -81,6 +81,14 @@ StepEv(e) ==
              /\ DiffSay("edit:" \o e.kind, d)
              /\ (IF e.w THEN WriteSay(e.edited, e.chunks) ELSE TRUE)
              /\ ok' = (ok /\ d = <<>> /\ w))
+    [] e.op = "alias" ->         \* C06/C09: an edit through a second public name of an attribute (a MetaModule's u_<label> alias of
+                                 \* user_defined_<n>) is the edit through its first name: same saved state, and not the state before
+       (IF e.outcome # "ok" THEN Say("alias-edit-failed", "ok", e.outcome) /\ ok' = FALSE
+        ELSE LET d == DiffObj(BlankVers(Norm(e.named)), BlankVers(Norm(e.after)))
+                 same == DiffObj(BlankVers(Norm(base)), BlankVers(Norm(e.named))) = <<>> IN
+             /\ DiffSay("alias-edit-differs-from-named-edit:" \o e.kind, d)
+             /\ (IF same THEN Say("alias-probe-vacuous", "a changed state", "unchanged") ELSE TRUE)
+             /\ ok' = (ok /\ d = <<>> /\ ~same))
     [] OTHER -> Say("unknown-op", "", e.op) /\ ok' = FALSE
 (* a loaded value wider than the 32-bit field it was read from (reported by the projection, TLC integers being 32-bit) *)
 Overflow(e) == IF "overflow" \in DOMAIN e THEN e.overflow ELSE <<>>
